@@ -11,7 +11,9 @@ RULE = ("model sets = corpus/exp + FK-shaped generator (several FKs to one table
         "empty after sanitising) each used as enum label (string and integer enum), enum name, column name, table name and FK column stem; "
         "+ a systematic default stream: 50 default spellings (function calls, bare expressions, booleans, every f64 spelling, quoted literals "
         "incl. quoted literals containing `(` / `)`, unquoted text), each alone in its table, next to a now() column and next to a "
-        "CURRENT_TIMESTAMP column, plus typed bool / integer / float defaults; every table is rendered for the 3 ORMs; "
+        "CURRENT_TIMESTAMP column, plus typed bool / integer / float defaults; + a systematic free-text stream: 25 texts (\\n, \\r\\n, lone \\r, trailing / "
+        "leading break, leading '#', triple quotes, trailing quote, backslash also at a line end, tabs, non-ASCII, empty, blank, text that looks "
+        "like code of the target language) each as table description, as column comment and as both; every table is rendered for the 3 ORMs; "
         "non-trivial = distinct (by hash of the models) set with >= 2 tables and >= 1 foreign key")
 
 # which classifier may explain which failure kind of which ORM
@@ -24,7 +26,7 @@ PY_EXPLAINS = {
 FINDING_OF = {"clash": "C17-seaorm-member-clash", "py_ident": "C17-py-invalid-identifier", "py_dup": "C17-py-duplicate-definition",
               "py_empty_import": "C17-py-empty-sqlalchemy-import", "py_text": "C17-py-unescaped-text",
               "py_sqlmodel_text": "C17-py-sqlmodel-text-import", "rust_ident": "C17-seaorm-invalid-identifier",
-              "py_sqlmodel_float_word": "C17-py-sqlmodel-float-word"}
+              "py_sqlmodel_float_word": "C17-py-sqlmodel-float-word", "seaorm_doc_cr": "C17-seaorm-doc-comment-cr"}
 
 
 def verdict(chk, run, tier, seed):
@@ -65,7 +67,8 @@ def verdict(chk, run, tier, seed):
             for w in (t["sea"].get("o17") or []):
                 kind = w.split(":")[0]
                 if not kind.startswith("invalid-"):
-                    failing.append((o["idx"], j, "seaorm", [kind], w, ["clash"] if kind.startswith("duplicate-") else []))
+                    failing.append((o["idx"], j, "seaorm", [kind], w, ["clash"] if kind.startswith("duplicate-") else
+                                    (["seaorm_doc_cr"] if kind == "bare-cr-in-doc-comment" else [])))
     # ---- O-C17 on the Python text (ast.parse, name resolution, columns once)
     for f in py["fails"]:
         kinds = sorted({x["kind"] for x in f["failures"]})
@@ -126,7 +129,7 @@ def run(tier, seed):
     chk = vflib.Check(PROP, tier, seed)
     chk.assumptions = ["model = coq/exp/Model/Names.v: declarations of the generated SeaORM entity (columns with Rust type / Option / primary key, relation fields, relation enums, enum types and variants, referenced entities); tie = K-exp: the real render_entity_with_schema text is parsed structurally and compared with `members` inside Coq for every table",
                        "PARTIAL: the Python half (SQLAlchemy, SQLModel) is decided by the ast-based oracle, a test: syntactically valid, every column exactly once, imports cover every name, and a per-column MIRROR check computed from the parsed AST by rules written from the model's type names (coverage.python_mirror_rules: nullability, Python / SQLAlchemy type, primary key, foreign key target, unique, index, default presence); of these only the import blocks, the text(...) columns and the field annotations (type, Optional iff nullable) are also modelled in Gallina and compared inside Coq (K-exp sub-checks 2, 3, 5, 7, 8)",
-                       "Rust syntax of the generated entity is not checked beyond its declarations: every struct field, relation enum, enum type and enum variant must be a Rust identifier (ASCII shape [A-Za-z_][A-Za-z0-9_]*, not a keyword unless raw; non-ASCII characters are not judged); the module path super::<table>::Entity is not judged"]
+                       "Rust syntax of the generated entity is not checked beyond its declarations and its line structure (every line of the SeaORM text must be one of the forms the exporter emits, so free text can only sit behind `///`; no bare CR inside a doc-comment line): every struct field, relation enum, enum type and enum variant must be a Rust identifier (ASCII shape [A-Za-z_][A-Za-z0-9_]*, not a keyword unless raw; non-ASCII characters are not judged); the module path super::<table>::Entity is not judged"]
     chk.cov["trusted_base"] = vflib.TRUSTED_COMMON + [
         "structural parser of the SeaORM text in harness_exp/hexp/src/seaparse.rs; Python ast module for the Python ORMs",
         "modelled, not verified: Unicode case mapping of non-ASCII characters (str::to_lowercase / to_uppercase / char::to_uppercase), Unicode alphanumeric classes in the Python exporters"]
